@@ -32,11 +32,41 @@ theorem key_by_object : cfg.keyByObj = true := by decide
 def Reachable (s : State) : Prop :=
   ∃ (alloc : Alloc) (ops : List Op), ValidAlloc alloc ∧ s = run cfg alloc (initState cfg) ops
 
+private theorem le_foldl_max (l : List Nat) : ∀ (init : Nat), init ≤ l.foldl max init ∧ ∀ x ∈ l, x ≤ l.foldl max init := by
+  induction l with
+  | nil => intro init; simp
+  | cons y ys ih =>
+    intro init
+    obtain ⟨h1, h2⟩ := ih (max init y)
+    refine ⟨Nat.le_trans (Nat.le_max_left _ _) h1, ?_⟩
+    intro x hx
+    simp only [List.mem_cons] at hx
+    rcases hx with rfl | hx
+    · exact Nat.le_trans (Nat.le_max_right _ _) h1
+    · exact h2 x hx
+
+/-- the allocator of the driver (reuse the smallest free address) is one of the allocators the theorems
+quantify over -/
+theorem driver_alloc_valid : ValidAlloc reuseAlloc := by
+  intro l
+  simp only [reuseAlloc]
+  split
+  · intro hin
+    have := (le_foldl_max l 0).2 _ hin
+    omega
+  · rename_i h
+    simpa using h
+
 /-- every cache entry of a reachable state refers to a live palette of the right kind and holds what
 would be recomputed (`PaletteState.Inv`) -/
 theorem reachable_inv {s : State} (h : Reachable s) : Inv cfg s := by
   obtain ⟨alloc, ops, hal, rfl⟩ := h
-  exact run_inv cfg_ok key_by_object hal ops _ (initState_inv cfg_ok)
+  have hinit : ∃ c, mkConf cfg false [] = .ok c := by
+    have h0 : (match mkConf cfg false [] with | .ok _ => true | .error _ => false) = true := by decide +kernel
+    cases hm : mkConf cfg false [] with
+    | ok c => exact ⟨c, rfl⟩
+    | error e => rw [hm] at h0; cases h0
+  exact run_inv cfg_ok key_by_object hal ops _ (initState_inv cfg_ok hinit)
 
 private theorem colorChunks_plain (s : State) (p : Addr) (top : ClassId) :
     ∀ (chs : List SChunk) (cs : List Chunk), colorChunks s p top chs = .ok cs →
@@ -125,8 +155,48 @@ theorem history_free {s s' : State} (hs : Reachable s) {alloc : Alloc} (hal : Va
     ∃ c c', s.confs.lookup k = some c ∧ s'.confs.lookup k = some c' ∧ c'.closed = c.closed ∧
       c'.noColor = c.noColor ∧
       ((nc = false → c.closed = true ∧ ∀ t ∈ sh.tags, tagStable cfg t = true) →
-        out = paintLines (pureColor cfg c' nc) sh.lines) :=
-  (render_spec cfg_ok key_by_object hal (reachable_inv hs) h).2
+        out = paintLines (pureColor cfg c' nc) sh.lines) := by
+  obtain ⟨c, c', h1, h2, h3, h4, h5, _⟩ := (render_spec cfg_ok key_by_object hal (reachable_inv hs) h).2
+  exact ⟨c, c', h1, h2, h3, h4, h5⟩
+
+/-- **History-free rendering, any configuration.** After any history: a coloured rendering that does not
+teach the configuration a new syntax id (every palette class it needs is registered already — e.g. any
+second rendering of an object of the same kind) equals the shape painted by the pure function of the
+configuration's description. No hypothesis on the configuration (dangling references allowed) nor
+on the accessors: stale palettes are never used, because the palette cache is dropped whenever the
+syntax map changes and a cached palette only memoises sub-palettes made from the same map. -/
+theorem history_free_steady {s s' : State} (hs : Reachable s) {alloc : Alloc} (hal : ValidAlloc alloc)
+    {k : ConfId} {sh : Shape} {out : List (List Chunk)}
+    (h : render cfg alloc k false sh s = .ok (s', out)) :
+    ∃ c c', s.confs.lookup k = some c ∧ s'.confs.lookup k = some c' ∧
+      (c'.smap.length = c.smap.length → c'.smap = c.smap ∧ out = paintLines (pureColor cfg c' false) sh.lines) := by
+  have hinv := reachable_inv hs
+  obtain ⟨c, c', h1, h2, _, _, _, h6⟩ := (render_spec cfg_ok key_by_object hal hinv h).2
+  refine ⟨c, c', h1, h2, fun hl => ⟨?_, h6 rfl hl⟩⟩
+  -- the map only grows
+  unfold render at h
+  simp only [bind, Except.bind] at h
+  cases e1 : mkPalette cfg alloc sh.top k false s with
+  | error e => simp [e1] at h
+  | ok r =>
+    obtain ⟨s1, p⟩ := r
+    simp only [e1] at h
+    obtain ⟨hinv1, hfr1, _, _⟩ := mkPalette_spec cfg_ok hal hinv e1
+    cases e2 : getSubs cfg alloc p sh.subs s1 with
+    | error e => simp [e2] at h
+    | ok s2 =>
+      simp only [e2] at h
+      obtain ⟨hinv2, hfr2⟩ := getSubs_spec cfg_ok hal p sh.subs s1 s2 hinv1 e2
+      cases e3 : colorLines s2 p sh.top sh.lines with
+      | error e => simp [e3] at h
+      | ok lines =>
+        simp only [e3] at h
+        cases h
+        obtain ⟨_, hconfs3⟩ := fill_inv (cfg := cfg) p sh.tags s2 hinv2
+        obtain ⟨c2, q1, _, _, _, q5⟩ := (hfr1.trans hfr2).confs k c h1
+        rw [hconfs3, q1] at h2
+        cases h2
+        exact (q5 hl).1
 
 /-- **No memory across histories.** Two renderings of the same shape — in different reachable states,
 under configurations that ended up with the same descriptions — are identical. -/
@@ -436,6 +506,17 @@ theorem lines_eq_whole {alloc : Alloc} {k : ConfId} {nc : Bool} {sh : Shape} {s 
     cellsOf (wholeOf '\n' out) = joinCells '\n' out ∧
     plainOf (wholeOf '\n' out) = (joinCells '\n' out).map Prod.fst :=
   ⟨cellsOf_wholeOf '\n' out, by rw [plainOf_eq_cells, cellsOf_wholeOf]⟩
+
+/-- **The synced `global_palette` has no memory either.** After any history its attributes are the
+colours that the global configuration in force gives to its syntax ids (whatever configurations were
+global before, whatever was registered meanwhile). -/
+theorem gp_synced {s : State} (hs : Reachable s) :
+    ∃ c, s.confs.lookup s.global = some c ∧
+      ∀ ci, cfg.classes[cfg.gpClass]? = some ci → s.gp = ci.localSyntax.map (getColor cfg.dfltId c) := by
+  have hinv := reachable_inv hs
+  cases hg : s.confs.lookup s.global with
+  | none => have := hinv.glob; simp [hg] at this
+  | some c => exact ⟨c, rfl, fun ci hci => hinv.gp c ci hg hci⟩
 
 /-! ## Checked examples
 
